@@ -25,6 +25,12 @@ type wireFault struct {
 
 var errWireInjected = errors.New("verif: injected wire fault")
 
+// errWireDeadline is what a real capture handle returns when its read deadline has passed: the
+// sentinel WRAPPED in a *os.PathError (os.File) — never the bare os.ErrDeadlineExceeded.
+func errWireDeadline() error {
+	return &os.PathError{Op: "read", Path: "verif-wire", Err: os.ErrDeadlineExceeded}
+}
+
 // wireTimeoutErr is an injected failure (errors.Is(err, errWireInjected)) that reports Timeout() == true.
 type wireTimeoutErr struct{}
 
@@ -174,7 +180,7 @@ func (s *memSource) Read(buf []byte) (int, error) {
 		block := s.w.blockWhenEmpty
 		s.w.mu.Unlock()
 		if !block {
-			return 0, os.ErrDeadlineExceeded
+			return 0, errWireDeadline()
 		}
 		wait := time.Until(dl)
 		if dl.IsZero() {
@@ -189,7 +195,7 @@ func (s *memSource) Read(buf []byte) (int, error) {
 				noteRunaway("more than 200000 reads in a row after the read deadline had passed")
 				return 0, errRunaway
 			}
-			return 0, os.ErrDeadlineExceeded
+			return 0, errWireDeadline()
 		}
 		s.w.mu.Lock()
 		s.w.idleReads = 0
@@ -199,7 +205,7 @@ func (s *memSource) Read(buf []byte) (int, error) {
 		case <-ch:
 			tm.Stop()
 		case <-tm.C:
-			return 0, os.ErrDeadlineExceeded
+			return 0, errWireDeadline()
 		}
 	}
 }
